@@ -247,7 +247,7 @@ fn sim_reader<'a>(w: &'a World, quirks: Vec<Quirk>) -> impl FnMut(&REnt) -> Resu
     }
 }
 
-pub fn walk(w: &World, rq: &RQuery, ws: &WalkSpec, wild: bool, o: &mut Outcome, trace: bool) {
+pub fn walk(w: &World, rq: &RQuery, ws: &WalkSpec, wild: bool, main_set: &[Quirk], o: &mut Outcome, trace: bool) {
     let e = match walk_query(rq, wild, w) {
         Some(e) => e,
         None => return,
@@ -325,6 +325,16 @@ pub fn walk(w: &World, rq: &RQuery, ws: &WalkSpec, wild: bool, o: &mut Outcome, 
     for q in ALL_QUIRKS.iter() {
         sets.push(vec![*q]);
     }
+    if !main_set.is_empty() {
+        sets.push(main_set.to_vec());
+        for q in ALL_QUIRKS.iter() {
+            if !main_set.contains(q) {
+                let mut s = main_set.to_vec();
+                s.push(*q);
+                sets.push(s);
+            }
+        }
+    }
     for set in sets {
         let mut r = sim_reader(w, set.clone());
         let (s2, stop2, _) = do_walk(&e, ws, wild, &pivot_id, max_pages, &mut scratch, &mut r);
@@ -350,8 +360,18 @@ pub fn walk(w: &World, rq: &RQuery, ws: &WalkSpec, wild: bool, o: &mut Outcome, 
         }
         Some(set) => {
             for q in set {
-                o.label(format!("finding:walk:{}", q.signature()));
-                o.violation(format!("walk:{}", q.signature()), detail.clone());
+                if main_set.contains(&q) {
+                    continue; // already reported by the comparison of the query itself
+                }
+                if q == Quirk::OrderRaw {
+                    // tolerated for one query, but a walk loses or repeats rows
+                    o.label("finding:walk:order-by-ignores-default");
+                    o.violation("walk:order-by-ignores-default", detail.clone());
+                } else {
+                    // the same deviation as in a single query, observed on a page of the walk
+                    o.label(format!("finding:{}", q.signature()));
+                    o.violation(format!("mismatch:{}", q.signature()), format!("(paging walk) {}", detail));
+                }
             }
         }
         None => {
